@@ -669,6 +669,12 @@ func init() {
 		record := func(ep entryPoint, class, name string, in []byte) {
 			t0 := time.Now()
 			outcome, alloc, msg := runGuarded(ep, in, deadline)
+			if outcome == "timeout" {
+				// a starved machine is not a call that does not terminate: asked again with six times the deadline (a call
+				// that really does not return is a timeout both times)
+				t0 = time.Now()
+				outcome, alloc, msg = runGuarded(ep, in, 6*deadline)
+			}
 			ev := map[string]any{"ev": "Call", "entry": ep.name, "class": class, "outcome": outcome, "inlen": len(in), "alloc_kib": alloc,
 				"ms": time.Since(t0).Milliseconds()}
 			if name != "" {
